@@ -66,7 +66,7 @@ ANCHORS = ['Bits.__eq__', 'Bits.__ne__', 'Bits.__hash__', 'BitStore.__eq__', 'Bi
 REQUIRED_OPS = ['eq', 'ne', 'reflexive', 'transitive', 'hash', 'hash-mutable', 'set', 'dict', 'list-membership',
                 'eq-promotable', 'ne-promotable', 'eq-nonpromotable', 'ne-nonpromotable', 'eq-badstr',
                 'eq-after-pos-move', 'hash-after-pos-move']
-MIN_EVALS = {'quick': 60000, 'thorough': 1000000}
+MIN_EVALS = {'quick': 200000, 'thorough': 5000000}
 ASSUMPTIONS = ['"the bits of an object" are what it reports publicly through len() and .bin',
                'equal => equal hash is the only hash requirement judged (collisions are allowed)',
                'promotable operands are judged in MSB0 mode only, where the bits they denote are unambiguous; '
